@@ -419,6 +419,8 @@ class JSExec(GoExec, SpecMixin, CallsMixin):
             if op in ('===', '!==', '==', '!=') and isinstance(a, (JSRec, JSDesc)) and isinstance(b, (JSRec, JSDesc)):
                 r = a.ref == b.ref
                 return r if op in ('===', '==') else z3.Not(r)
+            if op in ('===', '!==', '==', '!=') and (isinstance(a, JSUndef) or isinstance(b, JSUndef)):
+                return z3.BoolVal(op in ('!==', '!='))          # an object is not undefined
             raise Unsupported('operator %s on an object @%s' % (op, line))
         if op in ('===', '!==') and isinstance(a, OptNum) and isinstance(b, JSUndef):
             return a.undef if op == '===' else z3.Not(a.undef)
@@ -1005,7 +1007,10 @@ class JSExec(GoExec, SpecMixin, CallsMixin):
             if name == '$panic':
                 raise PanicEx('panic')           # panic(v): unwinds (its argument is not evaluated here)
             if name == '$throwRuntimeError':
-                msg = self.ev(st, args[0])
+                try:
+                    msg = self.ev(st, args[0])
+                except (Unsupported, AttributeError, TypeError):
+                    msg = None              # a message built from values: the throw itself is what matters
                 raise PanicEx(msg.lit.decode() if isinstance(msg, StrV) and msg.lit is not None else 'runtime error')
             if name in self.jsvariants and name != self.frame.key.split()[0]:
                 return self.apply_js_contract(st, name, [self.ev(st, a) for a in args], line)
